@@ -41,6 +41,9 @@
 (*  them into machinery failures).                                         *)
 (*                                                                         *)
 (* Leniencies: see the header of Expansion.tla; in addition                *)
+(*  - fast = True is judged only on inputs that meet BOTH the docstring's  *)
+(*    precondition (magnitudes of the non-zero items do not increase) and  *)
+(*    FastOK;                                                              *)
 (*  - "after at most two passes" is read as: pass 1 OR pass 2 is in normal *)
 (*    form; it is judged only when both passes are inside their domain and *)
 (*    kept the sum;                                                        *)
@@ -78,19 +81,19 @@ RenormVerdict(e) ==
       limit == Limit(f, e.size, FALSE)
       novf1 == a # <<>> /\ NoOverflow(f, a)
       ref1 == IF novf1 /\ (e.fast \/ e.dr) THEN RenormRun(f, a, "ideal") ELSE NoRun
-      dom1 == novf1 /\ (e.fast => ref1.ok)
+      sorted == Sorted(f, a)
+      dom1 == novf1 /\ (e.fast => (ref1.ok /\ sorted))
       p1 == PassFails(f, a, out, functional, e.fast, limit, dom1)
       novf2 == e.pass2 /\ NoOverflow(f, out)
       ref2 == IF novf2 /\ e.fast THEN RenormRun(f, out, "ideal") ELSE NoRun
-      dom2 == dom1 /\ p1 = {} /\ novf2 /\ (e.fast => ref2.ok)
+      dom2 == dom1 /\ p1 = {} /\ novf2 /\ (e.fast => (ref2.ok /\ Sorted(f, out)))
       p2 == IF e.pass2 THEN Suffix2(PassFails(f, out, e.out2, functional, e.fast, limit, dom2)) ELSE {}
       nf1 == AllFinite(f, out) /\ NF(f, out)
       nfbad == dom1 /\ p1 = {} /\ ~nf1 /\ dom2 /\ p2 = {} /\ ~NF(f, e.out2)
-      sorted == Sorted(f, a)
       want == IF functional THEN Pad(f, Take(ref1.out, limit), Min(limit, Len(a))) ELSE Take(ref1.out, limit)
   IN  [fails |-> p1 \cup p2 \cup (IF nfbad THEN {IF sorted THEN "nf_sorted_input" ELSE "nf_unsorted_input"} ELSE {}),
        notes |-> (IF ~novf1 THEN {"ood_overflow"} ELSE {})
-                 \cup (IF novf1 /\ e.fast /\ ~ref1.ok THEN {"ood_fast"} ELSE {})
+                 \cup (IF novf1 /\ e.fast /\ ~(ref1.ok /\ sorted) THEN {"ood_fast"} ELSE {})
                  \cup (IF novf1 /\ e.fast /\ ~ref1.ok /\ sorted /\ AllFinite(f, out)
                           /\ NotTruncated(f, Len(a), out, limit) /\ ~DEq(Sum(f, out), Sum(f, a))
                        THEN {"fast_sorted_sum_changed"} ELSE {})
@@ -109,10 +112,10 @@ AddVerdict(e) ==
       limit == Limit(f, e.size, TRUE)
       novf == c # <<>> /\ NoOverflow(f, c)
       fok == IF novf /\ e.fast THEN FastOK(f, c) ELSE FALSE
-      dom == novf /\ (e.fast => fok)
+      dom == novf /\ (e.fast => (fok /\ Sorted(f, c)))
   IN  [fails |-> PassFails(f, c, e.out, functional, e.fast, limit, dom),
        notes |-> (IF ~novf THEN {"ood_overflow"} ELSE {})
-                 \cup (IF novf /\ e.fast /\ ~fok THEN {"ood_fast"} ELSE {})
+                 \cup (IF novf /\ e.fast /\ ~(fok /\ Sorted(f, c)) THEN {"ood_fast"} ELSE {})
                  \cup (IF c # <<>> /\ AllFinite(f, e.out) /\ ~NotTruncated(f, Len(c), e.out, limit) THEN {"truncated"} ELSE {})]
 
 MulVerdict(e) ==
